@@ -57,13 +57,24 @@ def dag_outcome(stmts: Sequence[G.Stmt]) -> Tuple[str, Any]:
         DAGAnalyzer.create_dag(ast)
     except Exception as e:  # noqa: BLE001
         return "error", err_code(e)
-    return "ok", [c.left.value for c in ast.children]
+    return "ok", [c.left.value for c in ast.children if hasattr(c, "left")]      # (UDO definitions have no left)
+
+
+def dep_records(stmts: Sequence[G.Stmt]) -> Tuple[str, Any]:
+    """The dependency record the analyzer computes for every statement: output name -> sorted inputs."""
+    from vtlengine.AST.DAG import DAGAnalyzer
+    dag = DAGAnalyzer()
+    try:
+        dag.visit(G.build(stmts))
+    except Exception as e:  # noqa: BLE001
+        return "error", err_code(e)
+    return "ok", {(d.outputs + d.persistent + ["?"])[0]: sorted(set(d.inputs)) for d in dag.dependencies.values()}
 
 
 def sem_outcome(stmts: Sequence[G.Stmt]) -> Tuple[str, Any]:
     sem = P.api_from_ast("semantic_analysis")
     try:
-        r = sem(G.build(stmts), G.data_structures(stmts))
+        r = sem(G.build(stmts), G.structures_for(stmts))
     except Exception as e:  # noqa: BLE001
         return "error", err_code(e)
     out = {}
@@ -77,7 +88,7 @@ def sem_outcome(stmts: Sequence[G.Stmt]) -> Tuple[str, Any]:
 def run_outcome(stmts: Sequence[G.Stmt], data: Dict[str, Any]) -> Tuple[str, Any]:
     run = P.api_from_ast("run")
     try:
-        r = run(G.build(stmts), G.data_structures(stmts), {k: v.copy() for k, v in data.items()},
+        r = run(G.build(stmts), G.structures_for(stmts), {k: v.copy() for k, v in data.items()},
                 return_only_persistent=False)
     except Exception as e:  # noqa: BLE001
         return "error", err_code(e)
@@ -92,6 +103,8 @@ def run_outcome(stmts: Sequence[G.Stmt], data: Dict[str, Any]) -> Tuple[str, Any
 
 
 def show(stmts: Sequence[G.Stmt]) -> str:
+    if G.is_rich(stmts):
+        return G.show(stmts)
     parts = []
     for out, pers, kind, direct, cl in stmts:
         if kind == "scalar":
@@ -201,7 +214,63 @@ def main() -> None:  # noqa: C901
                              f"{val} (contract: SemanticError 1-2-2 whatever the order)",
                              {"script": show(perm), "outcome": [kind, val]})
 
+    # RICH family (checks/_dagscripts.rich_scripts): joins with aliases, UDO calls, membership, calc clauses with scalars,
+    # with deliberate NAME COLLISIONS (a join alias equal to a dataset produced by another statement, ...); all orders
+    rich_data = G.rich_data()
+    stats["rich_scripts"] = 0
+    for idx, (_tags, stmts) in enumerate(G.rich_scripts()):
+        # scripts whose join alias is the name of an INPUT dataset read by another statement report under their own
+        # obligations (the Interpreter registers join aliases for the rest of the script: a defect of its own)
+        sfx = "::join-alias-equal-to-input-dataset" if "alias-shadows-input" in _tags else ""
+        stats["scripts"] += 1
+        stats["rich_scripts"] += 1
+        stats["acyclic"] += 1
+        distinct.add(show(stmts))
+        want_deps = {s[0]: sorted(G.reads(s)) for s in stmts}
+        sem0 = run0 = None
+        do_run = idx % (2 if thorough else 5) == 0
+        for pi, perm in enumerate(perms(stmts)):
+            stats["permutations"] += 1
+            kind, val = dag_outcome(perm)
+            if kind != "ok":
+                fail("create_dag::valid-script-rejected", f"acyclic script [{show(perm)}]: create_dag raised {val}",
+                     {"script": show(perm), "outcome": [kind, val]})
+                continue
+            if sorted(val) != sorted(G.outputs(stmts)) or not G.topological_ok(val, stmts):
+                fail("create_dag::not-topological", f"written order [{show(perm)}]: sorted statements {val} do not put "
+                     "every producer before its consumers (or lose/duplicate a statement)",
+                     {"script": show(perm), "sorted": val})
+            dk, dv = dep_records(perm)
+            if dk != "ok" or dv != want_deps:
+                bad = sorted(k for k in want_deps if dk != "ok" or dv.get(k) != want_deps[k])
+                fail("create_dag::dependency-records", f"written order [{show(perm)}]: the analyzer records the inputs "
+                     f"{dv.get(bad[0]) if dk == 'ok' else dv} for statement {bad[0]}, which reads {want_deps[bad[0]]}",
+                     {"script": show(perm), "statement": bad[0], "recorded": dv if dk != "ok" else dv.get(bad[0]),
+                      "reads": want_deps[bad[0]]})
+            if pi >= 6 and not thorough:
+                continue
+            s = sem_outcome(perm)
+            if sem0 is None:
+                sem0, first = s, perm
+            elif s != sem0:
+                fail("semantic_analysis::order-dependent" + sfx, f"semantic_analysis differs between written orders "
+                     f"[{show(first)}] -> {sem0[0]} {str(sem0[1])[:80]} and [{show(perm)}] -> {s[0]} {str(s[1])[:80]}",
+                     {"order_1": show(first), "result_1": str(sem0)[:300], "order_2": show(perm), "result_2": str(s)[:300]})
+            if do_run:
+                r = run_outcome(perm, {k: v for k, v in rich_data.items() if k in G.global_inputs(stmts)})
+                stats["run_compared"] += 1
+                if run0 is None:
+                    run0 = r
+                elif r != run0:
+                    fail("run::order-dependent" + sfx, f"run() differs between written orders [{show(first)}] and "
+                         f"[{show(perm)}]: {str(run0)[:120]} vs {str(r)[:120]}",
+                         {"order_1": show(first), "order_2": show(perm), "result_1": str(run0)[:300], "result_2": str(r)[:300]})
+
     clauses = {
+        "create_dag::dependency-records": "RICH family (joins with aliases colliding with dataset names, UDO calls, "
+                                          "membership, calc clauses reading scalars): the inputs recorded for every "
+                                          "statement are exactly the datasets / scalars it reads (known by construction), "
+                                          "for every written order",
         "create_dag::cycle-not-rejected": "a cyclic script raises SemanticError 1-3-2-3 for every written order",
         "create_dag::valid-script-rejected": "an acyclic single-assignment script is accepted for every written order",
         "create_dag::not-topological": "the sorted statements are a permutation of the script with every producer before "
@@ -210,6 +279,12 @@ def main() -> None:  # noqa: C901
                                                           "every written order",
         "semantic_analysis::order-dependent": "semantic_analysis() reports the same structures for every written order",
         "run::order-dependent": "run() returns the same results for every written order",
+        "semantic_analysis::order-dependent::join-alias-equal-to-input-dataset":
+            "semantic_analysis() reports the same structures for every written order of a script in which a join alias "
+            "is spelled like an input dataset that another statement reads (an alias is local to its join)",
+        "run::order-dependent::join-alias-equal-to-input-dataset":
+            "run() returns the same results for every written order of a script in which a join alias is spelled like an "
+            "input dataset that another statement reads",
     }
     fn_of = {"create_dag": "src/vtlengine/AST/DAG/__init__.py:DAGAnalyzer.create_dag",
              "semantic_analysis": "src/vtlengine/API/__init__.py:semantic_analysis",
@@ -217,7 +292,7 @@ def main() -> None:  # noqa: C901
     for key, clause in clauses.items():
         f = fn_of[key.split("::")[0]]
         chk.under_contract(f, "bounded")
-        ob = chk.ob(f"{f}::{key.split('::')[1]}", f, clause, bounded=True)
+        ob = chk.ob(f"{f}::{key.split('::', 1)[1]}", f, clause, bounded=True)
         ob.backend = "bounded-enumeration-real-code"
         if key in fails:
             ob.status, (ob.detail, ob.witness) = REFUTED, fails[key]
@@ -237,7 +312,9 @@ def main() -> None:  # noqa: C901
     chk.samples = sorted(distinct)[:3] + [v[1] for v in fails.values()][:3]
     chk.assume("BOUNDED tier (the six create_dag / semantic_analysis / run obligations marked bounded): nothing is shown "
                "by it for scripts beyond the enumerated shapes (statements are assignments of "
-               "sums / filter clauses / scalar constants; no UDOs, rulesets, joins).  It is the only tier that exercises "
+               "sums / filter clauses / scalar constants, plus the RICH family of _dagscripts.rich_scripts: joins with aliases "
+               "colliding with dataset names, UDO calls, membership, calc clauses reading scalars; no rulesets, no join "
+               "bodies, no nested UDOs).  It is the only tier that exercises "
                "semantic_analysis() / run() end to end, the unknown-variable promotion of visit_Start and WHICH names the "
                "collectors extract from an expression")
     chk.notes.append("scripts that are BOTH redefining and cyclic under one choice of the producer are excluded from the "
